@@ -80,7 +80,7 @@ def finish(res, seed=0, frozen_undecided=None):
     rc = 0
     replay = None
     if new_viol:
-        rdir = os.path.join(VERIF, "reports")
+        rdir = os.environ.get("VERIF_REPORT_DIR") or os.path.join(VERIF, "reports")
         os.makedirs(rdir, exist_ok=True)
         replay = os.path.join(rdir, "%s.json" % res.pid)
         json.dump({"property": res.pid, "tier": res.tier, "violations": new_viol}, open(replay, "w"), indent=1)
@@ -121,8 +121,9 @@ def finish(res, seed=0, frozen_undecided=None):
     ev = {"property_id": res.pid, "tier": res.tier, "seed": seed, "level": res.level, "coverage": cov,
           "assumptions": res.assumptions, "wall_s": round(time.time() - res.t0, 2),
           "violations": len(new_viol)}
-    os.makedirs(os.path.join(VERIF, "evidence"), exist_ok=True)
-    json.dump(ev, open(os.path.join(VERIF, "evidence", "%s.json" % res.pid), "w"), indent=1, ensure_ascii=False)
+    evdir = os.environ.get("VERIF_EVIDENCE_DIR") or os.path.join(VERIF, "evidence")
+    os.makedirs(evdir, exist_ok=True)
+    json.dump(ev, open(os.path.join(evdir, "%s.json" % res.pid), "w"), indent=1, ensure_ascii=False)
     summary = ", ".join("%s %d/%d" % (r, c["proved"], sum(c.values())) for r, c in sorted(by_rule.items()))
     print("%s %s: %d instances (%s); %d known finding(s); %d new violation(s); exit %d" %
           (res.pid, res.tier, len(inst), summary, len(known_hit), len(new_viol), rc))
